@@ -6,11 +6,13 @@ package main
 import (
 	"flag"
 	"fmt"
+	"go/types"
 	"os"
 	"path/filepath"
 	"runtime/debug"
 	"sort"
 	"strconv"
+	"strings"
 )
 
 type propCheck struct {
@@ -112,8 +114,13 @@ func runOne(id string, pc *propCheck, wp **World, root, verif, tier string, seed
 		*wp = Load(abs)
 	}
 	w := *wp
+	resetCaches()
 	r := NewReport(id, tier, w)
 	pc.run(w, r)
+	if tier == "thorough" {
+		thoroughExtras(id, pc, w, r, abs)
+		resetCaches()
+	}
 	if onlyRule != "" {
 		for _, o := range r.Obs {
 			if o.Rule == onlyRule {
@@ -122,4 +129,81 @@ func runOne(id string, pc *propCheck, wp **World, root, verif, tier string, seed
 		}
 	}
 	return r.Finish(verif, seed, pc.explanation, pc.assumptions)
+}
+
+func resetCaches() {
+	rolesCache = nil
+	closeCache = map[*FuncInfo]*closeAnalysis{}
+	predCache = map[*types.Func]*predSummary{}
+}
+
+// buildConfigs are the build configurations that could change the set of files
+// a static tool sees (GOOS/GOARCH constraints, the verif tag).
+var buildConfigs = []struct {
+	name string
+	env  []string
+}{
+	{"linux/386", []string{"GOOS=linux", "GOARCH=386"}},
+	{"windows/amd64", []string{"GOOS=windows", "GOARCH=amd64"}},
+	{"darwin/arm64", []string{"GOOS=darwin", "GOARCH=arm64"}},
+	{"tags=verif", []string{"GOFLAGS=-mod=mod -tags=verif"}},
+}
+
+// thoroughExtras re-decides the property under every build configuration and
+// requires the analysed file set and the verdict vector to be identical.
+func thoroughExtras(id string, pc *propCheck, w *World, r *Report, root string) {
+	r.Rule("CFG", len(buildConfigs), "thorough tier: under every build configuration (GOOS/GOARCH/tags) the set of analysed source files and every verdict is identical to the default configuration - a static tool only sees what was parsed")
+	base := map[string]string{}
+	for _, o := range r.Obs {
+		base[o.Rule+" "+o.Construct] = o.Verdict
+	}
+	baseFiles := strings.Join(w.Files, ",")
+	var cfgSummary []map[string]any
+	for _, bc := range buildConfigs {
+		func() {
+			defer func() {
+				if e := recover(); e != nil {
+					msg := fmt.Sprint(e)
+					if u, ok := e.(undecidedErr); ok {
+						msg = u.msg
+					}
+					r.Undecided("CFG", "config:"+bc.name, 0, "the repository does not load under %s: %s", bc.name, msg)
+				}
+			}()
+			resetCaches()
+			w2 := Load(root, bc.env...)
+			r2 := NewReport(id, "thorough", w2)
+			pc.run(w2, r2)
+			diffs := []string{}
+			if f2 := strings.Join(w2.Files, ","); f2 != baseFiles {
+				diffs = append(diffs, "the set of analysed files differs: "+f2)
+			}
+			seen := map[string]bool{}
+			for _, o := range r2.Obs {
+				k := o.Rule + " " + o.Construct
+				seen[k] = true
+				if v, ok := base[k]; !ok {
+					diffs = append(diffs, "extra obligation "+k+" ("+o.Verdict+")")
+				} else if v != o.Verdict {
+					diffs = append(diffs, k+": "+v+" by default, "+o.Verdict+" under this configuration")
+				}
+			}
+			for k := range base {
+				if !seen[k] && !strings.HasPrefix(k, "CFG ") {
+					diffs = append(diffs, "missing obligation "+k)
+				}
+			}
+			sort.Strings(diffs)
+			cfgSummary = append(cfgSummary, map[string]any{"config": bc.name, "files": len(w2.Files), "obligations": len(r2.Obs), "differences": len(diffs)})
+			if len(diffs) == 0 {
+				r.OK("CFG", "config:"+bc.name, 0, true, "%d files, %d obligations, verdict vector identical to the default configuration", len(w2.Files), len(r2.Obs))
+			} else {
+				if len(diffs) > 5 {
+					diffs = append(diffs[:5], fmt.Sprintf("... and %d more", len(diffs)-5))
+				}
+				r.Fail("CFG", "config:"+bc.name, 0, "the analysis differs under %s: %s", bc.name, strings.Join(diffs, "; "))
+			}
+		}()
+	}
+	r.aux["build_configurations"] = cfgSummary
 }
